@@ -1353,9 +1353,9 @@ fn match_of(
         }
         return res;
     } else {
-        // A single predicate counts as one member
+        // A single predicate counts as one member, and behaves like a group of one
         return match solve_expression(expression, identifiers, document) {
-            SolverResult::True if count > 1 => SolverResult::False,
+            SolverResult::True if count > 1 => SolverResult::Missing,
             res => res,
         };
     }
